@@ -14,9 +14,17 @@ use smoltcp::iface::{Config, Interface, SocketHandle, SocketSet};
 use smoltcp::phy::Medium;
 use smoltcp::socket::tcp;
 use smoltcp::time::{Duration, Instant};
-use smoltcp::wire::{HardwareAddress, IpAddress, IpCidr, Ipv4Address};
+use smoltcp::wire::{HardwareAddress, IpAddress, IpCidr, Ipv6Address};
 
 pub const ADDR: [[u8; 4]; 2] = [[10, 0, 0, 1], [10, 0, 0, 2]];
+pub const ADDR6: [[u8; 16]; 2] = [[0xfd, 0, 0, 0, 0, 0, 0, 0, 0, 0, 0, 0, 0, 0, 0, 1], [0xfd, 0, 0, 0, 0, 0, 0, 0, 0, 0, 0, 0, 0, 0, 0, 2]];
+pub fn ep_addr(idx: usize, v6: bool) -> IpAddress {
+    if v6 {
+        IpAddress::Ipv6(Ipv6Address::from_octets(ADDR6[idx]))
+    } else {
+        IpAddress::v4(ADDR[idx][0], ADDR[idx][1], ADDR[idx][2], ADDR[idx][3])
+    }
+}
 pub const PORT: [u16; 2] = [40001, 80];
 
 pub fn content(stream: usize, k: i64) -> u8 {
@@ -39,6 +47,7 @@ pub struct EpCfg {
     pub keep_alive: Option<u64>,
     pub timeout: Option<u64>,
     pub seed: u64,
+    pub v6: bool,
 }
 
 pub struct Ep {
@@ -76,7 +85,7 @@ impl Ep {
         c.random_seed = cfg.seed;
         let mut iface = Interface::new(c, &mut dev, now);
         iface.update_ip_addrs(|a| {
-            a.push(IpCidr::new(IpAddress::v4(ADDR[idx][0], ADDR[idx][1], ADDR[idx][2], ADDR[idx][3]), 24)).unwrap();
+            a.push(IpCidr::new(ep_addr(idx, cfg.v6), if cfg.v6 { 64 } else { 24 })).unwrap();
         });
         let mut s = tcp::Socket::new(tcp::SocketBuffer::new(vec![0u8; cfg.rx]), tcp::SocketBuffer::new(vec![0u8; cfg.tx]));
         s.set_ack_delay(cfg.ack_delay.map(Duration::from_millis));
@@ -173,7 +182,7 @@ impl Numbering {
         json!({"from": from, "seq": seq, "ha": t.ack.is_some(), "ack": ack, "len": t.payload.len(), "syn": t.syn, "fin": t.fin, "rst": t.rst, "psh": t.psh,
             "win": t.win, "ws": t.wscale.map(|x| x as i64).unwrap_or(-1), "mss": t.mss.map(|x| x as i64).unwrap_or(-1), "sp": t.sackp, "ts": t.ts.is_some(),
             "ol": t.hdr_len - 20, "pd": pd, "cs": t.csum_ok && ip.hdr_csum_ok, "wf": ip.wf, "iplen": ip.total_len, "norel": norel,
-            "srcok": ip.src == ADDR[from].to_vec(), "ackno_base": self.iss[1 - from].is_some()})
+            "srcok": ip.src == ADDR[from].to_vec() || ip.src == ADDR6[from].to_vec(), "ackno_base": self.iss[1 - from].is_some()})
     }
     pub fn proj_frame(&mut self, from: usize, f: &[u8]) -> Value {
         match parse_ip(f) {
@@ -215,9 +224,10 @@ fn pick_cfg(rng: &mut Rng, seed: u64, small: bool) -> EpCfg {
         ack_delay: *rng.pick(&[None, None, Some(10u64), Some(10), Some(200), Some(900)]),
         nagle: rng.chance(50),
         ts: rng.chance(25),
-        keep_alive: None,
-        timeout: None,
+        keep_alive: *rng.pick(&[None, None, None, Some(700u64), Some(4000)]),
+        timeout: *rng.pick(&[None, None, None, Some(6000u64), Some(30000)]),
         seed,
+        v6: rng.chance(40),
     }
 }
 
@@ -270,6 +280,7 @@ pub fn pair(args: &Args) {
         let ca = pick_cfg(&mut rng, sa, small);
         let mut cb = pick_cfg(&mut rng, sb, small);
         cb.mtu = ca.mtu; // one link, one MTU
+        cb.v6 = ca.v6; // and one address family
         let mut eps = [Ep::new(0, ca.clone(), Instant::from_millis(0)), Ep::new(1, cb.clone(), Instant::from_millis(0))];
         let mut num = Numbering::default();
         // link parameters
@@ -282,8 +293,8 @@ pub fn pair(args: &Args) {
         let total = [rng.below(maxbytes + 1) as i64, if rng.chance(50) { rng.below(maxbytes / 4 + 1) as i64 } else { 0 }];
         let reader_stall = [if rng.chance(25) { rng.range(100, 5000) as i64 } else { 0 }, if rng.chance(35) { rng.range(100, 5000) as i64 } else { 0 }];
         t.ev(json!({"ev":"reset","run":run,"world":"tcp_pair","seed":seed0,"pollat":pollat_mode,
-            "cfg":[{"rx":ca.rx,"tx":ca.tx,"mtu":ca.mtu,"cc":ca.cc,"ad":ca.ack_delay.map(|x| x as i64).unwrap_or(-1),"nagle":ca.nagle,"ts":ca.ts,"isn":wa},
-                   {"rx":cb.rx,"tx":cb.tx,"mtu":cb.mtu,"cc":cb.cc,"ad":cb.ack_delay.map(|x| x as i64).unwrap_or(-1),"nagle":cb.nagle,"ts":cb.ts,"isn":wb}],
+            "v6":ca.v6,"cfg":[{"rx":ca.rx,"tx":ca.tx,"mtu":ca.mtu,"cc":ca.cc,"ad":ca.ack_delay.map(|x| x as i64).unwrap_or(-1),"nagle":ca.nagle,"ts":ca.ts,"isn":wa,"ka":ca.keep_alive.map(|x| x as i64).unwrap_or(-1),"tmo":ca.timeout.map(|x| x as i64).unwrap_or(-1)},
+                   {"rx":cb.rx,"tx":cb.tx,"mtu":cb.mtu,"cc":cb.cc,"ad":cb.ack_delay.map(|x| x as i64).unwrap_or(-1),"nagle":cb.nagle,"ts":cb.ts,"isn":wb,"ka":cb.keep_alive.map(|x| x as i64).unwrap_or(-1),"tmo":cb.timeout.map(|x| x as i64).unwrap_or(-1)}],
             "link":{"drop":drop_pct,"dup":dup_pct,"flip":flip_pct,"delay":base_delay,"jitter":jitter,"adv_until":adv_until},"total":total}));
         // open: B listens, A connects
         let mut now: i64 = 0;
@@ -293,7 +304,7 @@ pub fn pair(args: &Args) {
         {
             let e = &mut eps[0];
             let cx = e.iface.context();
-            let r = e.sockets.get_mut::<tcp::Socket>(e.h).connect(cx, (Ipv4Address::new(10, 0, 0, 2), PORT[1]), PORT[0]);
+            let r = e.sockets.get_mut::<tcp::Socket>(e.h).connect(cx, (ep_addr(1, ca.v6), PORT[1]), PORT[0]);
             assert!(r.is_ok());
         }
         let p = eps[0].post(now);
@@ -629,7 +640,11 @@ impl PeerW {
         let aack = ack.map(|a| self.num.iss[1].unwrap_or(0).wrapping_add(a as u32));
         let payload: Vec<u8> = (0..len as i64).map(|i| content(0, seq - 1 + i)).collect();
         let t = TcpSeg { sport: PORT[0], dport: PORT[1], seq: aseq, ack: aack, syn, fin, rst, psh: false, win, mss, wscale: ws, sackp: false, ts: None, payload, ..Default::default() };
-        ipv4_packet(ADDR[0], ADDR[1], 6, 1, 64, &t.emit(), true)
+        if self.ep.cfg.v6 {
+            ipv6_packet(ADDR6[0], ADDR6[1], 6, 64, &t.emit(), true)
+        } else {
+            ipv4_packet(ADDR[0], ADDR[1], 6, 1, 64, &t.emit(), true)
+        }
     }
     pub fn inject(&mut self, frame: Vec<u8>, t: &mut Trace, extra: Value) -> bool {
         let before = self.ep.state();
@@ -729,14 +744,14 @@ impl PeerW {
         let before = self.ep.state();
         let e = &mut self.ep;
         let cx = e.iface.context();
-        let r = e.sockets.get_mut::<tcp::Socket>(e.h).connect(cx, (Ipv4Address::new(10, 0, 0, 1), PORT[0]), PORT[1]);
+        let r = e.sockets.get_mut::<tcp::Socket>(e.h).connect(cx, (ep_addr(0, e.cfg.v6), PORT[0]), PORT[1]);
         let p = self.ep.post(self.now);
         t.ev(json!({"ev":"api","ep":1,"now":self.now,"call":"connect","ok":r.is_ok(),"before":before,"post":p}));
     }
 }
 
 fn peer_cfg(args: &Args, seed: u64) -> EpCfg {
-    EpCfg { rx: args.usize("rx", 2), tx: args.usize("tx", 4), mtu: args.usize("mtu", 1500), cc: args.u64("cc", 0) as u8, ack_delay: None, nagle: args.flag("nagle"), ts: false, keep_alive: None, timeout: None, seed }
+    EpCfg { rx: args.usize("rx", 2), tx: args.usize("tx", 4), mtu: args.usize("mtu", 1500), cc: args.u64("cc", 0) as u8, ack_delay: None, nagle: args.flag("nagle"), ts: false, keep_alive: None, timeout: None, seed, v6: args.flag("v6") }
 }
 
 /// Replays TLC schedules (steps exported from MCTcpPeer) on a real listening socket.
@@ -837,7 +852,7 @@ pub fn peer_random(args: &Args) {
         let rx = *rng.pick(&[4usize, 16, 64, 256, 1000, 4096, 70000, 131072]);
         let tx = *rng.pick(&[8usize, 64, 512, 4096, 70000]);
         let mtu = *rng.pick(&[576usize, 1500, 296, 9000]);
-        let cfg = EpCfg { rx, tx, mtu, cc: rng.below(3) as u8, ack_delay: if rng.chance(40) { Some(10) } else { None }, nagle: rng.chance(50), ts: false, keep_alive: None, timeout: None, seed };
+        let cfg = EpCfg { rx, tx, mtu, cc: rng.below(3) as u8, ack_delay: if rng.chance(40) { Some(10) } else { None }, nagle: rng.chance(50), ts: false, keep_alive: None, timeout: None, seed, v6: rng.chance(40) };
         let peer_iss = match rng.below(4) {
             0 => 0xffff_ff00u32.wrapping_add(rng.below(200) as u32),
             1 => 0x7fff_ff00u32.wrapping_add(rng.below(200) as u32),
